@@ -6,8 +6,11 @@ import GrcovModel.Drv.C19Dest
 import GrcovModel.Drv.LlvmTools
 import GrcovModel.Drv.Writers
 import GrcovModel.Drv.C03CobAde
+import GrcovModel.Drv.C03CobBytes
 import GrcovModel.Drv.C20Consumer
 import GrcovModel.Drv.C03Docs
+import GrcovModel.Drv.C14Gcno
+import GrcovModel.Drv.MainGlue
 open Grcov.Drv
 
 def step (line : String) : String :=
@@ -32,6 +35,8 @@ def step (line : String) : String :=
   | "c03.cob.tree" :: args => Grcov.Drv.CobAde.handleCobTree args
   | "c03.cob.stem" :: args => Grcov.Drv.CobAde.handleCobStem args
   | "c03.ade" :: args => Grcov.Drv.CobAde.handleAde args
+  | "c03.cobbytes.ser" :: args => Grcov.Drv.CobBytes.handleSer args
+  | "c03.cobbytes.parse" :: args => Grcov.Drv.CobBytes.handleParse args
   | "c20.cons.run" :: args => handleConsRun args
   | "c20.cons.version" :: args => handleConsVersion args
   | "c20.cons.argv" :: args => handleConsArgv args
@@ -41,6 +46,10 @@ def step (line : String) : String :=
   | "c03.docs.markdown" :: args => handleDocsMarkdown args
   | "c03.docs.files" :: args => handleDocsFiles args
   | "c03.docs.html" :: args => handleDocsHtml args
+  | "c14.gcno.computeb" :: args => Grcov.Drv.C14Gcno.handleComputeB args
+  | "c14.gcno.gcdarecs" :: args => Grcov.Drv.C14Gcno.handleGcdaRecs args
+  | "main.plan" :: args => Grcov.Drv.MainGlue.handlePlan args
+  | "main.sort" :: args => Grcov.Drv.MainGlue.handleSort args
   | _ => "bad-op"
 
 partial def loop (h : IO.FS.Stream) (out : IO.FS.Stream) : IO Unit := do
